@@ -65,7 +65,7 @@ type Bind struct {
 type FailRule struct {
 	Binding string `json:"binding"`
 	Times   int    `json:"times"`
-	Kind    string `json:"kind"` // exit bad-metrics bad-patch invalid-patch-op
+	Kind    string `json:"kind"` // exit exit-2 exit-127 killed-by-signal bad-metrics bad-patch invalid-patch-op ...
 }
 
 type Case struct {
@@ -103,7 +103,7 @@ func gen(t *rapid.T) Case {
 		c.Fails = append(c.Fails, FailRule{
 			Binding: rapid.SampledFrom(c.Ticks).Draw(t, "fb"),
 			Times:   rapid.SampledFrom([]int{1, 1, 1, 2, 3}).Draw(t, "times"),
-			Kind:    rapid.SampledFrom([]string{"exit", "exit", "bad-metrics", "bad-patch", "invalid-patch-op", "patch-apply-error", "bad-admission-response", "bad-conversion-response"}).Draw(t, "kind"),
+			Kind:    rapid.SampledFrom([]string{"exit", "exit", "exit-2", "exit-127", "killed-by-signal", "bad-metrics", "bad-patch", "invalid-patch-op", "patch-apply-error", "bad-admission-response", "bad-conversion-response"}).Draw(t, "kind"),
 		})
 	}
 	c.Late = rapid.Bool().Draw(t, "late")
@@ -146,6 +146,15 @@ func failBehaviour(kind string) vh.Behaviour {
 		return vh.Behaviour{Patch: &vh.File{Content: `{"operation":"MergePatch","apiVersion":"v1","kind":"ConfigMap","namespace":"default","name":"no-such-object","mergePatch":{"data":{"a":"b"}}}`}}
 	case "invalid-patch-op":
 		return vh.Behaviour{Patch: &vh.File{Content: `{"operation":"Explode","kind":"Pod","name":"x"}`}}
+	}
+	switch kind {
+	case "exit-2":
+		return vh.Behaviour{Exit: 2}
+	case "exit-127":
+		return vh.Behaviour{Exit: 127}
+	case "killed-by-signal":
+		// the hook process does not exit at all: it is killed (SIGKILL, as the OOM killer does)
+		return vh.Behaviour{Signal: true}
 	}
 	return vh.Behaviour{Exit: 1}
 }
@@ -463,7 +472,7 @@ func runCase(c Case) (ev.Info, error) {
 	return info, nil
 }
 
-const rule = "the real operator on a fake cluster; hook h with 2-4 schedule bindings (allowFailure, group, queue main/q1), hook o with one binding per queue, a blocker hook parked on a gate in both queues while 1-8 ticks are injected (so tasks pile up and get combined), 1-2 failure rules 'fail k times (k in 1..3) whenever binding X is in the contexts' by non-zero exit, malformed metrics, malformed patch, invalid patch operation a well-formed patch that cannot be applied, or a malformed admission/conversion response file; after the gate opens the per-queue sequence of executions in the hook log must equal the sequence prescribed by the property (combine model + retry until success unless every involved binding allows failure, nothing else of the queue in between), and every retry starts >= the initial delay after the failed run ended; in half of the cases a tick of a further hook is injected into a queue as soon as its first failing execution ended (a task arriving during the back-off sleep), expected to run last, or an AdmissionReview request for the hook whose execution just failed is served (its execution must carry only its own context and the queue must go on as if nothing happened). Non-trivial: a failure occurred while >= 1 other task was queued behind it."
+const rule = "the real operator on a fake cluster; hook h with 2-4 schedule bindings (allowFailure, group, queue main/q1), hook o with one binding per queue, a blocker hook parked on a gate in both queues while 1-8 ticks are injected (so tasks pile up and get combined), 1-2 failure rules 'fail k times (k in 1..3) whenever binding X is in the contexts' by non-zero exit (1, 2, 127), a hook process killed by a signal, malformed metrics, malformed patch, invalid patch operation a well-formed patch that cannot be applied, or a malformed admission/conversion response file; after the gate opens the per-queue sequence of executions in the hook log must equal the sequence prescribed by the property (combine model + retry until success unless every involved binding allows failure, nothing else of the queue in between), and every retry starts >= the initial delay after the failed run ended; in half of the cases a tick of a further hook is injected into a queue as soon as its first failing execution ended (a task arriving during the back-off sleep), expected to run last, or an AdmissionReview request for the hook whose execution just failed is served (its execution must carry only its own context and the queue must go on as if nothing happened). Non-trivial: a failure occurred while >= 1 other task was queued behind it."
 
 func TestRetry(t *testing.T) {
 	ev.Main(t, ev.Spec[Case]{Property: "C04", Part: "retry", Rule: rule, Gen: gen, Run: runCase, Journal: true})
